@@ -31,6 +31,16 @@ Fixpoint mains (l : sent) (ds : list dval) : list dval :=
   | it :: r => hd dnone ds :: mains r (skipn (width it) ds)
   end.
 
+(** the entry multipliers of each LMI, consumed from the same aligned list *)
+Fixpoint ents (l : sent) (ds : list dval) : list (option (list (list Q))) :=
+  match l with
+  | [] => []
+  | SC e s :: r => None :: ents r (skipn (width (SC e s)) ds)
+  | LMI m :: r =>
+      Some (reshape (ncols m) (map scalar_of (firstn (nrows m * ncols m) (tl ds))) (nrows m))
+      :: ents r (skipn (width (LMI m)) ds)
+  end.
+
 Lemma length_entry_rows k m : length (entry_rows k m) = nrows m * ncols m.
 Proof.
   unfold entry_rows.
@@ -66,12 +76,18 @@ Qed.
 Lemma width_pos it : 1 <= width it.
 Proof. destruct it; cbn; lia. Qed.
 
+Lemma skipn_app_pre {A} (pre ds : list A) n : skipn (length pre + n) (pre ++ ds) = skipn n ds.
+Proof.
+  rewrite skipn_app. replace (length pre + n - length pre) with n by lia.
+  rewrite skipn_all2 by lia. reflexivity.
+Qed.
+
 (** the loop of _recover_dual_values, started at any position of the dual vector *)
 Lemma recover_loop_spec l : forall pre ds c2,
   total_width l <= length ds ->
-  recover_loop l (pre ++ ds) (length pre) c2 = (mains l ds, c2 + length l).
+  recover_loop l (pre ++ ds) (length pre) c2 = (mains l ds, ents l ds, c2 + length l).
 Proof.
-  induction l as [|it l IH]; intros pre ds c2 Hlen; cbn [recover_loop mains length].
+  induction l as [|it l IH]; intros pre ds c2 Hlen; cbn [recover_loop mains ents length].
   - f_equal. lia.
   - cbn [total_width] in Hlen.
     assert (Hsplit : pre ++ ds = (pre ++ firstn (width it) ds) ++ skipn (width it) ds)
@@ -84,7 +100,8 @@ Proof.
     destruct it as [e s|m]; rewrite nth_app_pre; cbn [width] in *.
     + rewrite H. f_equal. lia.
     + replace (length pre + 1 + nrows m * ncols m) with (length pre + (1 + nrows m * ncols m)) by lia.
-      rewrite H. f_equal. lia.
+      rewrite H. unfold entries_at. rewrite skipn_app_pre.
+      replace (skipn 1 ds) with (tl ds) by (destruct ds; reflexivity). f_equal. lia.
 Qed.
 
 Lemma length_mains l ds : length (mains l ds) = length l.
@@ -121,6 +138,34 @@ Lemma pos_from_total c l : pos_from c l (length l) = c + total_width l.
 Proof.
   revert c. induction l as [|it l IH]; intro c; cbn [pos_from length total_width]; [lia|].
   rewrite IH. lia.
+Qed.
+
+Lemma length_ents l ds : length (ents l ds) = length l.
+Proof. revert ds. induction l as [|[e s|m] l IH]; intro ds; cbn [ents length]; [reflexivity| |]; rewrite IH; reflexivity. Qed.
+
+(** [ents] reads the duals right after the main position *)
+Definition entries_of_item (temp : list dval) (p : nat) (it : item) : option (list (list Q)) :=
+  match it with SC _ _ => None | LMI m => Some (entries_at temp (p + 1) m) end.
+
+Lemma ents_nth l : forall pre ds,
+  total_width l <= length ds ->
+  ents l ds = map (fun k => entries_of_item (pre ++ ds) (pos_from (length pre) l k) (nth k l (SC [] Ineq)))
+                  (seq 0 (length l)).
+Proof.
+  induction l as [|it l IH]; intros pre ds Hlen; cbn [ents length seq map]; [reflexivity|].
+  cbn [total_width] in Hlen.
+  assert (Hl : length (pre ++ firstn (width it) ds) = length pre + width it)
+    by (rewrite app_length, firstn_length; lia).
+  assert (Hrest : total_width l <= length (skipn (width it) ds)) by (rewrite skipn_length; lia).
+  assert (Htail : ents l (skipn (width it) ds)
+                  = map (fun k => entries_of_item (pre ++ ds) (pos_from (length pre) (it :: l) (S k))
+                                                  (nth (S k) (it :: l) (SC [] Ineq))) (seq 0 (length l))).
+  { rewrite (IH (pre ++ firstn (width it) ds) (skipn (width it) ds) Hrest).
+    apply map_ext. intro k. cbn [pos_from nth]. rewrite Hl, <- app_assoc, firstn_skipn. reflexivity. }
+  rewrite <- seq_shift, map_map.
+  destruct it as [e s|m]; cbn [pos_from nth entries_of_item] in *; f_equal; try exact Htail.
+  f_equal. unfold entries_at. rewrite skipn_app_pre.
+  replace (skipn 1 ds) with (tl ds) by (destruct ds; reflexivity). reflexivity.
 Qed.
 
 Lemma pos_from_step c l k it :
@@ -187,8 +232,11 @@ Theorem layout :
   forall (tracked : sent) (temp : list dval),
     length temp = length (emit tracked) ->
     let exposed_duals := map (fun k => nth (main_pos tracked k) temp dnone) (seq 0 (length tracked)) in
+    (* entries_dual_variable_value of each LMI: the n*m duals that follow its main row, reshaped; nothing for a scalar *)
+    let exposed_entries :=
+      map (fun k => entries_of_item temp (main_pos tracked k) (nth k tracked (SC [] Ineq))) (seq 0 (length tracked)) in
     (* what _recover_dual_values returns, and its final assertion *)
-    recover tracked temp = (nth 0 temp dnone :: exposed_duals, nth 0 temp dnone, S (length tracked))
+    recover tracked temp = (nth 0 temp dnone :: exposed_duals, nth 0 temp dnone, S (length tracked), exposed_entries)
     /\ length (nth 0 temp dnone :: exposed_duals) = S (length tracked)
     (* assign_dual_values gives item k the dual found at the position of ITS main row *)
     /\ assign tracked (nth 0 temp dnone :: exposed_duals) = combine tracked exposed_duals
@@ -203,16 +251,18 @@ Theorem layout :
     (* nothing is left at the end of the vector *)
     /\ main_pos tracked (length tracked) = length (emit tracked).
 Proof.
-  intros tracked temp Hlen exposed_duals.
+  intros tracked temp Hlen exposed_duals exposed_entries.
   rewrite length_emit in Hlen.
   destruct temp as [|d0 ds]; [cbn in Hlen; lia|]. cbn [length] in Hlen.
   assert (Hds : total_width tracked <= length ds) by lia.
   assert (Hmains : mains tracked ds = exposed_duals).
   { unfold exposed_duals, main_pos. rewrite (mains_nth tracked [d0] ds). reflexivity. }
+  assert (Hents : ents tracked ds = exposed_entries).
+  { unfold exposed_entries, main_pos. rewrite (ents_nth tracked [d0] ds Hds). reflexivity. }
   split; [|split; [|split; [|split; [|split]]]].
   - unfold recover. cbn [nth].
     pose proof (recover_loop_spec tracked [d0] ds 1 Hds) as H. cbn [length app] in H.
-    rewrite H, Hmains. repeat f_equal; lia.
+    rewrite H, Hmains, Hents. repeat f_equal; lia.
   - cbn [length]. unfold exposed_duals. rewrite map_length, seq_length. reflexivity.
   - reflexivity.
   - reflexivity.
@@ -220,4 +270,39 @@ Proof.
     pose proof (emit_from_rows tracked 0 1 [RGram] k it eq_refl Hk) as [H1 H2].
     cbn [app Nat.add] in H1, H2. split; [exact H1|]. split; [apply pos_from_step; exact Hk|exact H2].
   - unfold main_pos. rewrite pos_from_total, length_emit. reflexivity.
+Qed.
+
+(** ** Object identity: when every object is sent once, each position shows its own values *)
+Lemma last_pos_absent ids : forall x i found, ~ In x ids -> last_pos_from ids x i found = found.
+Proof.
+  induction ids as [|y ids IH]; intros x i found H; cbn [last_pos_from]; [reflexivity|].
+  destruct (Nat.eqb_spec y x) as [->|_]; [exfalso; apply H; left; reflexivity|].
+  apply IH. intro; apply H; right; assumption.
+Qed.
+
+Lemma last_pos_nodup ids : forall x i found j,
+  NoDup ids -> nth_error ids j = Some x -> last_pos_from ids x i found = i + j.
+Proof.
+  induction ids as [|y ids IH]; intros x i found j Hnd Hj; [destruct j; discriminate|].
+  inversion Hnd as [|? ? Hn Hnd']; subst. cbn [last_pos_from]. destruct j as [|j]; cbn [nth_error] in Hj.
+  - injection Hj as ->. rewrite Nat.eqb_refl. rewrite last_pos_absent by exact Hn. lia.
+  - destruct (Nat.eqb_spec y x) as [->|_].
+    + exfalso. apply Hn. eapply nth_error_In. exact Hj.
+    + rewrite (IH x (S i) found j Hnd' Hj). lia.
+Qed.
+
+Lemma map_nth_seq {A} (l : list A) d : map (fun k => nth k l d) (seq 0 (length l)) = l.
+Proof.
+  induction l as [|a l IH]; cbn [length seq map nth]; [reflexivity|].
+  f_equal. rewrite <- seq_shift, map_map. exact IH.
+Qed.
+
+Theorem by_object_nodup {A} (ids : list nat) (vals : list A) d :
+  NoDup ids -> length ids = length vals -> by_object ids vals d = vals.
+Proof.
+  intros Hnd Hlen. unfold by_object. rewrite <- (map_nth_seq vals d) at 2.
+  apply map_ext_in. intros k Hk. apply in_seq in Hk. f_equal.
+  assert (Hk' : k < length ids) by lia.
+  rewrite (last_pos_nodup ids (nth k ids 0) 0 k k Hnd); [reflexivity|].
+  apply nth_error_nth'. exact Hk'.
 Qed.
